@@ -598,17 +598,29 @@ class SimFS(object):
         """stand-in for shutil.rmtree on simulated paths (stdlib code, not repo code)"""
         try:
             names = self.listdir(path)
-            for nm in names:
-                child = os.path.join(os.fspath(path), nm)
+        except OSError:
+            if not ignore_errors:
+                raise
+            return
+        for nm in names:
+            child = os.path.join(os.fspath(path), nm)
+            # (the real one takes the entry type from the directory listing; an entry that vanished meanwhile fails in the
+            # unlink, and with ignore_errors the walk goes on with the next entry)
+            try:
                 st = self.stat(child, follow_symlinks=False)
-                if statmod.S_ISDIR(st.st_mode):
-                    self.rmtree(child, ignore_errors)
-                else:
-                    try:
-                        self.unlink(child)
-                    except OSError:
-                        if not ignore_errors:
-                            raise
+            except OSError:
+                if not ignore_errors:
+                    raise
+                continue
+            if statmod.S_ISDIR(st.st_mode):
+                self.rmtree(child, ignore_errors)
+            else:
+                try:
+                    self.unlink(child)
+                except OSError:
+                    if not ignore_errors:
+                        raise
+        try:
             self.rmdir(path)
         except OSError:
             if not ignore_errors:
